@@ -217,8 +217,15 @@ pub fn generate(rng: &mut Rng, cfg: &GenCfg) -> Program {
             let some_h: Vec<usize> = (0..HPT).filter(|&i| hfull[i]).collect();
             let mut fresh = |ops: &mut Vec<Op>, hfull: &mut Vec<bool>, rng: &mut Rng| -> Option<usize> {
                 // a value to write: a fresh allocation, an existing handle, or null
-                if !some_h.is_empty() && rng.chance(1, 4) {
+                if !some_h.is_empty() && rng.chance(1, 3) {
                     let i = some_h[rng.range(0, some_h.len())];
+                    // store a *clone* and keep the handle: the same pointer can be stored again
+                    // later (A-B-A), and stays alive meanwhile
+                    if let (true, Some(j)) = (rng.chance(2, 3), (0..HPT).find(|&j| !hfull[j])) {
+                        ops.push(Op::CloneH { h: hbase + i, h2: hbase + j });
+                        hfull[j] = true;
+                        return Some(j);
+                    }
                     return Some(i);
                 }
                 let i = (0..HPT).find(|&i| !hfull[i])?;
